@@ -1106,7 +1106,11 @@ class Interp:
         if ai.kind in (PARAM, BUFFER):
             self.dom.on_state_read(self, cls, path, attr, node)
             v = self.dom.state(self, one, path + (attr,), ai, node)
-            # an attribute that is a parameter on one constructor path and a buffer on another
+            # a buffer / parameter slot registered empty (register_buffer("x", None)) and filled later: it may
+            # still be None when read
+            val = getattr(ai, "value", None)
+            if ai.kind == BUFFER and isinstance(val, ast.Constant) and val.value is None and v.kind in ("tensor", "top") and not v.maybe_none:
+                v = AV(v.kind, v.data, v.ann, True)
             return v
         if ai.kind == MODULE:
             return OBJ(ai.extra, path + (attr,))
@@ -1786,6 +1790,9 @@ class Interp:
         return NONE
 
     def construct(self, cls, args, kwargs, node):
+        h = getattr(self.dom, "on_construct", None)
+        if h is not None:
+            h(self, cls, args, kwargs, node)
         if cls.is_nn_module():
             return OBJ(cls, ("<new>",))
         if cls.is_subclass_of("Exception") or any(isinstance(b, str) and b.endswith("Exception") for b in cls.mro()):
